@@ -290,7 +290,7 @@ def _rxn_unsupported_member(rec, fmt, pick, empty=False):
     return rec, None
 
 
-def _bonds_sorted(rec, fmt):
+def _bonds_sorted(rec, fmt, desc=False):
     """Bond block in the order most programs write it - by atom index - instead of chython's own (wedge bonds first).  The wedge
     of a stereo centre is then no longer the first bond line of its atom."""
     lines = rec.split('\n')
@@ -306,7 +306,7 @@ def _bonds_sorted(rec, fmt):
                 continue
             out.extend(lines[i:i + 1 + na])
             bl = lines[i + 1 + na:i + 1 + na + nb]
-            out.extend(sorted(bl, key=lambda x: (int(x[0:3]), int(x[3:6]))))
+            out.extend(sorted(bl, key=lambda x: (int(x[0:3]), int(x[3:6])), reverse=desc))
             i += 1 + na + nb
             continue
         if fmt in ('esdf', 'erdf') and ln.startswith('M  V30 BEGIN BOND'):
@@ -317,7 +317,7 @@ def _bonds_sorted(rec, fmt):
                 bl.append(lines[j].split(' '))      # M, '', V30, idx, type, a1, a2, ...
                 j += 1
             if all(len(t) >= 7 and t[5].isdigit() and t[6].isdigit() for t in bl):
-                bl.sort(key=lambda t: (int(t[5]), int(t[6])))
+                bl.sort(key=lambda t: (int(t[5]), int(t[6])), reverse=desc)
                 for k, t in enumerate(bl, start=1):
                     t[3] = str(k)
             out.extend(' '.join(t) for t in bl)
@@ -449,7 +449,7 @@ def apply_foreign(fmt, text, extents, spec):
             if k is not None:
                 spec.setdefault('_dropped', {})[len(new_ext)] = k
         if kind == 'bonds_sorted' and fmt != 'mrv':
-            rec = _bonds_sorted(rec, fmt)
+            rec = _bonds_sorted(rec, fmt, bool(spec.get('desc')))
         if kind == 'v2000extras' and fmt in ('sdf', 'rdf'):
             rec = _v2000_extras(rec, spec.get('picks', [0]), spec.get('header', 0))
         pieces.append(rec)
@@ -1547,6 +1547,8 @@ def generate(seed):
                 trace['foreign']['header'] = s.randrange(16)
             if k == 'mixed_versions':
                 trace['foreign']['mask'] = s.randrange(1, 1 << 12)
+            if k == 'bonds_sorted':
+                trace['foreign']['desc'] = s.random() < 0.5
             if k == 'rxn_unsupported_member':
                 trace['foreign']['member'] = s.randrange(64)
                 trace['foreign']['empty'] = s.random() < 0.4
@@ -1878,6 +1880,37 @@ def golden_phase(probes):
     return found
 
 
+def layout_phase(probes):
+    """Fixed, seed-independent part of every run: all records of the repository's stereo files through every MDL writer, the
+    bond block re-sorted the way other programs write it, read back with and without `calc_cis_trans`: configuration must not
+    depend on which bond line of a stereo centre carries the wedge."""
+    found = []
+    from checks.c11_records import _load_file
+    for name, n in (('stereo.sdf', 32), ('isomorphism.sdf', 8)):
+        recs = [r for r in _load_file(name) if r is not None]
+        idx = list(range(min(n, len(recs))))
+        # ... and every record with an allene or a cis/trans label (few, and the ones whose wedge handling has most cases)
+        idx += [i for i, r in enumerate(recs) if i >= n and hasattr(r, 'stereogenic_allenes') and
+                (any(a.stereo is not None and k in r.stereogenic_allenes for k, a in r.atoms()) or
+                 any(b.stereo is not None for *_, b in r.bonds()))][:40]
+        for fmt in ('sdf', 'esdf', 'rdf', 'erdf'):
+            for start in range(0, len(idx), 8):
+                for kind in ('bonds_sorted', 'bonds_sorted_desc', None):
+                    t = {'property': PROP, 'seed': 0, 'fmt': fmt, 'calc_ct': False,
+                         'config': {'mode': 'clean', 'calc_ct': False, 'n_records': 8},
+                         'records': [{'k': 'file', 'f': name, 'i': j} for j in idx[start:start + 8]],
+                         'write': {'bufsize': 8192, 'clock': [60], 'via': 'wrapper', 'append_via': 'wrapper', 'flush_every': 0, 'write_through': False},
+                         'reads': [{'mode': 'for'}]}
+                    if kind:
+                        t['foreign'] = {'kind': 'bonds_sorted', 'desc': kind.endswith('desc')}
+                    v = execute(t, probes, _scratch())
+                    probes['layout_phase_files'] += 1
+                    if v:
+                        found.append(dict(t, violation=v))
+                        break
+    return found
+
+
 def own_files_phase(probes):
     """Valid records written by other programs are read rather than crashed on; random access = sequential."""
     found = []
@@ -2015,6 +2048,7 @@ def _main(a, subprocess):
 
     found.extend(own_files_phase(probes))
     agg['runs'] += len(FILES)
+    found.extend(layout_phase(probes))
 
     import glob
     for f in sorted(glob.glob(os.path.join(env.VERIF, 'replays', 'fixed', '*.json'))):
